@@ -8,6 +8,7 @@
 //	                                               finding F14); '?' for 4096 < n <= 2^62 (the loop
 //	                                               would run n times) and for n < 0
 //	B <op>;<op>;…   | <rec>;<rec>;…                the scale stream: batched ops, bounded records (big.go)
+//	T <mode><dir><G>[+<off>] | <digests>           heapq.Sort on a window of a larger array, digests (r4.go)
 //
 // Elements are key.payload, lists are joined by ','.  dir names the comparison function:
 //
@@ -356,6 +357,8 @@ func exec(in string) string {
 		return out
 	case "B":
 		return execBig(rest)
+	case "T":
+		return execSortDigest(rest)
 	case "H":
 		s := &session{pos: map[int]int{}, cur: asc}
 		s.q = heapq.New(asc).Update(s.cb)
@@ -687,7 +690,7 @@ func permutations(n int, f func(p []int)) {
 }
 
 func main() {
-	tr.Main("heapq histories built in phases against a shadow queue (ascending, descending, zig-zag and random insertion runs reaching 4-6 heap levels, interior Remove by index and by reported position followed by full drains, Reorder and Set mid-life, NewWithData adoption, Clear/New, Update(nil) for a while and Update(callback) again, negative and out-of-range Remove/Peek, Front/Pop on empty, Each with early stop; key ranges from 3 (many duplicates) to 1000; eight comparison functions at New/NewWithData/Reorder/Sort: by key in both directions, 3*(a-b) and 7*(b-a), key/4 in both directions (coarse), constant 0, by payload; Adds and Removes are tagged by the trigger conditions of findings F1/F2; C05 also repeats whole elements, C06 keeps payloads distinct); exhaustive small scopes: every insertion order of 1..5 then drain, every heap-ordered array of 5..7 (thorough 5..9) distinct keys through Set then Remove(i) for every i then drain, every permutation of 1..5 (thorough 1..6) through Set then Remove(i) then drain, every permutation of 1..5 through NewWithData in both directions and under the six other comparison functions with a Reorder to a coarse one; every heap-ordered array of 3..7 keys through Set then Add of every rank then drain; heapq.Sort on random slices of length 0..40 in both directions; Set on heapq.Queue[struct{}] of 0..4096 and of more than 2^62 elements (known finding F14). Scale stream (B lines, batched operations, records bounded by FNV digests of the layout, of the sorted contents and of the callback log): queues of 2^k-1, 2^k, 2^k+1 elements for k up to 12 built by Add, by Set and by NewWithData (spare capacity too) from arithmetic key patterns (ascending, descending, zig-zag, all equal, runs of 33..100 equal keys, random over 2..100000 keys) with distinct payloads, every observer on them (Len, IsEmpty, Front, Each to the end and stopped, Peek at every offset, Peek(-1), Peek(Len)), one interior Remove per heap level, Remove through reported positions, grow / drain to an eighth..a half by Pop / observe / regrow / drain, Reorder in mid-life at even and odd sizes, Update(nil) .. Update(callback) cycles in mid-life, Set with an empty and a one-element slice as a reset and a big Set into the old buffer, long runs of equal priorities, random batched histories up to 3000 elements; heapq.Sort of 2^k-1, 2^k, 2^k+1 elements up to 1025. Non-trivial: the history held at least 8 elements at some point, or a Sort of at least 2 elements.",
+	tr.Main("heapq histories built in phases against a shadow queue (ascending, descending, zig-zag and random insertion runs reaching 4-6 heap levels, interior Remove by index and by reported position followed by full drains, Reorder and Set mid-life, NewWithData adoption, Clear/New, Update(nil) for a while and Update(callback) again, negative and out-of-range Remove/Peek, Front/Pop on empty, Each with early stop; key ranges from 3 (many duplicates) to 1000; eight comparison functions at New/NewWithData/Reorder/Sort: by key in both directions, 3*(a-b) and 7*(b-a), key/4 in both directions (coarse), constant 0, by payload; Adds and Removes are tagged by the trigger conditions of findings F1/F2; C05 also repeats whole elements, C06 keeps payloads distinct); exhaustive small scopes: every insertion order of 1..5 then drain, every heap-ordered array of 5..7 (thorough 5..9) distinct keys through Set then Remove(i) for every i then drain, every permutation of 1..5 (thorough 1..6) through Set then Remove(i) then drain, every permutation of 1..5 through NewWithData in both directions and under the six other comparison functions with a Reorder to a coarse one; every heap-ordered array of 3..7 keys through Set then Add of every rank then drain; heapq.Sort on random slices of length 0..40 in both directions; Set on heapq.Queue[struct{}] of 0..4096 and of more than 2^62 elements (known finding F14). Scale stream (B lines, batched operations, records bounded by FNV digests of the layout, of the sorted contents and of the callback log): queues of 2^k-1, 2^k, 2^k+1 elements for k up to 12 built by Add, by Set and by NewWithData (spare capacity too) from arithmetic key patterns (ascending, descending, zig-zag, all equal, runs of 33..100 equal keys, random over 2..100000 keys) with distinct payloads, every observer on them (Len, IsEmpty, Front, Each to the end and stopped, Peek at every offset, Peek(-1), Peek(Len)), one interior Remove per heap level, Remove through reported positions, grow / drain to an eighth..a half by Pop / observe / regrow / drain, Reorder in mid-life at even and odd sizes, Update(nil) .. Update(callback) cycles in mid-life, Set with an empty and a one-element slice as a reset and a big Set into the old buffer, long runs of equal priorities, random batched histories up to 3000 elements; heapq.Sort of 2^k-1, 2^k, 2^k+1 elements up to 1025. Round 4: the same contents reached by eight different histories (Set, Adds, Adds with extras removed through their reported positions, drained by Pop / by Remove / cleared and put in again, a larger queue drained long ago then Clear, elements taken out one by one and put back) followed by the whole observer set, an Add, removals through reported positions and a drain; damaged states: the queue is driven without resets until the front is not minimal (known finding F1), the insertion point is steered so that offset n/2 or (n-1)/2 is a chosen held element (one ranking before the front when there is one) and a key around that element, around the front, between them, before or behind everything is added with the callback installed, then removed through its reported position; capacity history (B lines): buffers of capacity 2^k-1, 2^k, 2^k+1 for k = 8..13 (spare capacity of the slice adopted by NewWithData) and buffers really grown to 1023..1025 and beyond 4096 by Set, Adds, NewWithData, brought back to few or no elements by Clear, Set of nothing or of one element, Pops or Removes, optionally cleared again, then every operation with every report checked; the sweep (B lines): every queue length 0..600 (quick tier: every one up to 160, every fifth beyond) built by Add, Set, NewWithData in turn, then Add, interior Remove, Pop, Reorder to a different comparison function and the observers each at exactly that length in a random order, and a Set of exactly as many elements as the buffer holds, one fewer, one or two more; heapq.Sort at every length 0..1100 (T lines: the argument is a window of a larger array with spare capacity 0, 1, n, 3n, 3n+1, 4n or what brings the capacity to 1023..1025, 2048, 4097 and 0, 1, 3 or 64 elements in front; the whole array is looked at after the call: order of the window under the comparison function, digest of its comparison classes, digest of its contents sorted by (key, payload), elements outside it). Non-trivial: the history held at least 8 elements at some point, or a Sort of at least 2 elements.",
 		exec, func(g *tr.G) {
 			dup := g.Prop != "C06"
 			// exhaustive small scopes
@@ -829,5 +832,8 @@ func main() {
 			}
 			// the scale stream (big.go)
 			genScale(g)
+			// round 4 (r4.go): histories to the same contents, damaged states, capacity history, the
+			// sweep over every length, Sort at every length
+			genRound4(g)
 		})
 }
